@@ -5,11 +5,11 @@ From RtcmGen Require Import GenFields GenSignals GenLayouts GenMessages.
 Import ListNotations.
 Open Scope Z_scope.
 
-Definition t_encode_frag := encode_frag sig_table ssr_table_1059 ssr_table_1065.
+Definition t_encode_frag := encode_frag sig_table ssr_table_1059 ssr_table_1065 SAT_CAP_1059 SAT_CAP_1065.
 Definition t_decode_frag := decode_frag sig_table ssr_table_1059 ssr_table_1065 SAT_CAP_1059 SAT_CAP_1065.
 Definition t_from_frame := from_frame sig_table ssr_table_1059 ssr_table_1065 SAT_CAP_1059 SAT_CAP_1065 messages.
-Definition t_build := build sig_table ssr_table_1059 ssr_table_1065 messages.
-Definition t_build_fresh := build_fresh sig_table ssr_table_1059 ssr_table_1065 messages.
+Definition t_build := build sig_table ssr_table_1059 ssr_table_1065 SAT_CAP_1059 SAT_CAP_1065 messages.
+Definition t_build_fresh := build_fresh sig_table ssr_table_1059 ssr_table_1065 SAT_CAP_1059 SAT_CAP_1065 messages.
 Definition t_decode_bytes := decode_bytes sig_table ssr_table_1059 ssr_table_1065 SAT_CAP_1059 SAT_CAP_1065 messages.
 Definition t_msg_number := msg_number messages.
 
